@@ -397,12 +397,31 @@ CLI_CASES = [
     ("log_folder_below_a_file", ["--lat", "1", "--long", "1", "--log-folder", "@AFILE@/logs"]),
     ("airports_missing_file", ["--lat", "1", "--long", "1", "--airports", "/nonexistent/airports.csv"]),
     ("airports_not_csv", ["--lat", "1", "--long", "1", "--airports", "@BADCSV@"]),
-]
+] + [("airports_" + k, ["--lat", "1", "--long", "1", "--airports", "@CSV:" + k + "@"]) for k in (
+    "bom", "crlf", "quotes", "empty_fields", "missing_columns", "non_numeric", "empty_file", "header_only", "huge", "nul_bytes", "latin1", "extreme_numbers", "no_header")]
+HDR = "icao,iata,name,city,subd,country,elevation,lat,lon,tz\n"
+ROW = "KAAA,AAA,Field A,Town,ST,US,597.0,40.1587,-89.335,America/Chicago\n"
+CSV_FILES = {
+    "bom": ("\ufeff" + HDR + ROW).encode(),
+    "crlf": (HDR + ROW + ROW).replace("\n", "\r\n").encode(),
+    "quotes": (HDR + 'KBBB,BBB,"Field, with comma","Town ""quoted""",ST,US,10.0,1.5,2.5,Europe/Amsterdam\n' + 'KCCC,CCC,"unterminated,Town,ST,US,10.0,1.5,2.5,Europe/Amsterdam\n').encode(),
+    "empty_fields": (HDR + ",,,,,,,,,\n" + "KDDD,,,,,,,1.0,2.0,\n" + ROW).encode(),
+    "missing_columns": (HDR + "KEEE,EEE,Field\n" + "KFFF\n" + "\n" + ROW + "KGGG,GGG,Field G,Town,ST,US,1.0,2.0,3.0,Europe/Amsterdam,extra,columns\n").encode(),
+    "non_numeric": (HDR + "KHHH,HHH,Field H,Town,ST,US,high,north,west,America/Chicago\n" + "KIII,III,Field I,Town,ST,US,1.0,nan,inf,America/Chicago\n").encode(),
+    "empty_file": b"",
+    "header_only": HDR.encode(),
+    "huge": (HDR + "".join("K%04d,A%02d,Field %d,Town,ST,US,%d.0,%.4f,%.4f,America/Chicago\n" % (k, k % 100, k, k, -89 + k * 0.035, -179 + k * 0.07) for k in range(5000))).encode(),
+    "nul_bytes": (HDR + "KJ\x00J,JJJ,Fie\x00ld,Town,ST,US,1.0,2.0,3.0,America/Chicago\n").encode(),
+    "latin1": (HDR + "KLLL,LLL,Flughafen M\xfcnchen,Town,ST,US,1.0,2.0,3.0,Europe/Berlin\n").encode("latin1"),
+    "extreme_numbers": (HDR + "KMMM,MMM,Field M,Town,ST,US,1e308,91.0,-181.0,America/Chicago\n" + "KNNN,NNN,Field N,Town,ST,US,-1e308,-1e308,1e308,America/Chicago\n").encode(),
+    "no_header": ROW.encode() * 3,
+}
 
 
 # values that are invalid for this client (its --host is an IPv4 address) but would be perfectly good
 # for one that resolves names or speaks IPv6: a usage error or a normal run, never a crash
-MAYBE_VALID = {"host_ipv6_loopback", "host_ipv6_any", "host_ipv6_mapped", "host_ipv6_link_local", "host_name", "host_with_port", "host_three_octets"}
+MAYBE_VALID = {"airports_bom", "airports_crlf", "airports_quotes", "airports_empty_fields", "airports_missing_columns", "airports_non_numeric", "airports_empty_file", "airports_header_only", "airports_huge", "airports_nul_bytes", "airports_latin1", "airports_extreme_numbers", "airports_no_header",
+               "host_ipv6_loopback", "host_ipv6_any", "host_ipv6_mapped", "host_ipv6_link_local", "host_name", "host_with_port", "host_three_octets"}
 
 
 def cli_case(col, binpath, name, args, scratch):
@@ -411,6 +430,12 @@ def cli_case(col, binpath, name, args, scratch):
     with open(bad, "w") as f:
         f.write("this,is,not\nan airports,file\n")
     args = [bad if x == "@BADCSV@" else x.replace("@AFILE@", bad) for x in args]
+    for i, x in enumerate(args):
+        if x.startswith("@CSV:"):
+            path = os.path.join(scratch, f"csv-{name}.csv")
+            with open(path, "wb") as f:
+                f.write(CSV_FILES[x[5:-1]])
+            args[i] = path
     import tempfile, shutil
     srv = procs.FeedServer([("sleep", 30)])
     srv.start()
@@ -435,6 +460,7 @@ def cli_case(col, binpath, name, args, scratch):
             rc = p.wait_exit(15)
             text = p.raw.decode("utf-8", "replace")
             m = session.PANIC_RE.search(text)
+            diffs = procs.termios_diff(p.termios_before, p.termios_now())
             if rc != 0 or m:
                 col.add("C17", f"C17|cli_value_accepted_then_unclean_exit|{name}", f"radar ran with this value; after 'q' exit status {rc}, panic at {m.group(1) if m else None}", inp)
         elif rc is None:
@@ -495,6 +521,6 @@ def main(a, lcol, col, run_all, scratch, START):
     ev = col.counters.get("events", 0) + col.counters.get("cli_cases", 0) + col.counters.get("quits_checked", 0)
     col.sample({"session": "40 aircraft, traffic running, --filter-time 1, 150 events", "events": ["key:F3", "key:Down", "mouse:drag:17:9", "resize:1:1", "raw:b'\\x1b[<'", "key:Enter"], "then": "q -> exit status, termios, cursor/mouse modes"})
     return vlib.finish(col, "C17", a.tier, a.seed, "exploration",
-        "radar on a pseudo-terminal: seeded random sequences (10-300 events) over keys (F1-F5, Tab, l i h t n, - +, arrows, Enter, others), SGR mouse reports (down/up/drag/scroll/right/move at tab hit boxes, touchscreen buttons, anywhere, outside the window), held keys (40-300 repeats), steady pointer streams (150-300 reports a few ms apart), resizes (1x1 ... 300x100) and raw bytes / broken escape sequences, x tracked set 0/1/3/10/40 x traffic stopped/running x --filter-time default/0/1 x option subsets (with --gpsd a stand-in gpsd on port 2947 answers: periodic reports, one report then silence, a non-JSON line, a hang-up); process must stay alive until quit, then exit 0 with termios and cursor/mouse modes restored; quit while 'Waiting for connection', on the reconnect screen, and on a silent feed after a successful reconnect; 15 invalid command-line values must end in a non-panic error exit; distinct_nontrivial = distinct (event kind/key, session class, CLI case) cells exercised",
+        "radar on a pseudo-terminal: seeded random sequences (10-300 events) over keys (F1-F5, Tab, l i h t n, - +, arrows, Enter, others), SGR mouse reports (down/up/drag/scroll/right/move at tab hit boxes, touchscreen buttons, anywhere, outside the window), held keys (40-300 repeats), steady pointer streams (150-300 reports a few ms apart), resizes (1x1 ... 300x100) and raw bytes / broken escape sequences, x tracked set 0/1/3/10/40 x traffic stopped/running x --filter-time default/0/1 x option subsets (with --gpsd a stand-in gpsd on port 2947 answers: periodic reports, one report then silence, a non-JSON line, a hang-up, reports without a fix, a 2 MB line and a line that never ends, a close in the middle of a line, JSON of the wrong shape / non-finite and out-of-range coordinates, a byte at a time); process must stay alive until quit, then exit 0 with termios and cursor/mouse modes restored; quit while 'Waiting for connection', on the reconnect screen, and on a silent feed after a successful reconnect; 49 invalid or unusual command-line values (13 shapes of --airports files and 7 --host forms among them: a usage error or a normal run) must never crash; distinct_nontrivial = distinct (event kind/key, session class, CLI case) cells exercised",
         ["the terminal is a pty with a minimal VT model; 'as it found it' = termios flags equal, cursor visible, mouse reporting modes off", "exit deadlines (20 s) are generous; a process that never exits after quit is a violation, a driver that cannot connect is inconclusive"],
         a.verif, START, ev, len(col.classes), min_evaluations=50)
